@@ -1,6 +1,7 @@
 import SpiceEv.Py
 import SpiceEv.Wire
 import SpiceEv.Model.Curve
+import SpiceEv.Cmd.Curve
 import SpiceEv.Proofs.Basic
 import SpiceEv.Proofs.Curve
 import SpiceEv.Properties.C03
